@@ -1,5 +1,6 @@
 import SdnsVerif.Model.Util
 import SdnsVerif.Model.IPSet
+import SdnsVerif.Model.Chain
 /-! Line protocol for the `ipset` / `acl` / `views` / `sub` ops of C17. -/
 namespace Driver.C17
 open SdnsVerif.Model SdnsVerif.Model.IPSet SdnsVerif.Model.Util
@@ -39,6 +40,19 @@ def parseAddr (s : String) : Option (Fam × Nat) :=
 
 def typeCode (s : String) : Option Nat :=
   if s == "a" then some 1 else if s == "aaaa" then some 28 else if s == "txt" then some 16 else none
+
+def parseScript (s : String) : Option Chain.Script :=
+  if s == "-" then some [] else
+  s.toList.mapM fun c =>
+    if c == 'n' then some Chain.Act.next else if c == 'c' then some Chain.Act.cancel
+    else if c == 'w' then some Chain.Act.write else none
+
+def natList (l : List Nat) : String := ",".intercalate (l.map toString)
+
+def parseH (s : String) : Option Chain.H :=
+  match s.splitOn ":" with
+  | [n, f] => if f == "t" then some ⟨n, true⟩ else if f == "f" || f == "x" then some ⟨n, false⟩ else none
+  | _ => none
 
 def openList : List Entry := [some (Fam.v4, 0, 0), some (Fam.v6, 0, 0)]
 
@@ -104,6 +118,31 @@ def step (st : State) (w : List String) : State × String :=
     | some l => (st, "reply=" ++ String.join (l.map boolStr))
     | none => (st, "bad-op")
   | "dchain" :: "rlserve" :: _ => (st, "unmodelled")
+  | ["chain", "run", scs] =>
+    match (scs.splitOn ";").mapM parseScript with
+    | some hs =>
+      let r := Chain.run hs
+      if r.oof then (st, "model-out-of-fuel") else
+      (st, s!"ran={natList r.ran} writer={match r.writer with | some w => toString w | none => "-"}")
+    | none => (st, "bad-op")
+  | ["wire", "build", spec] =>
+    match (spec.splitOn ",").mapM parseH with
+    | some hs =>
+      -- the capture handler the driver appends is not client-only
+      let all := hs ++ [⟨"stub", false⟩]
+      let names := fun (l : List Chain.H) => ",".intercalate (l.map (·.name))
+      (st, s!"q={names (Chain.queryerSub all)} pq={names (Chain.prefetchSub all)}")
+    | none => (st, "bad-op")
+  | ["ident", "derive", kind, a, port, tproto, tint] =>
+    match parseAddr a, port.toNat? with
+    | some (f, v), some p =>
+      let k := if kind == "udp" then Chain.AddrKind.udp else if kind == "tcp" then Chain.AddrKind.tcp else Chain.AddrKind.other
+      let sentinel := (f == Fam.v4 || f == Fam.mapped) && v == 0x7f0000ff
+      let peer : Chain.Peer := { kind := k, sentinelIP := sentinel, port := p,
+                                 transportProto := if tproto == "-" || tproto == "e" then "" else tproto,
+                                 transportInternal := tint == "t" }
+      (st, s!"proto={Chain.derivedProto peer} internal={boolStr (Chain.derivedInternal peer)}")
+    | _, _ => (st, "bad-op")
   | "sub" :: _ => (st, "unmodelled")
   | _ => (st, "bad-op")
 
